@@ -227,8 +227,8 @@ CLAIMS["C09"] = {
     "design_ref": "DESIGN.md section 4 C09",
     "note": "Trusted: symgo, z3. Only wrapTable/integerAttribute/NewTableCellBox are decided; the rest of the box-generation rules is outside this technique's reach here.",
 }
-H("C09", "html/boxes", "VxH_C09_grid", reach=["built"], bounds="table of 2 (thorough 3) rows x 2 cells; colspan and (except in the last row) rowspan absent or a symbolic digit 0..3", quick={"maxsteps": 50000000, "time": "500s", "shards": 8}, thorough={"maxsteps": 50000000, "time": "5400s", "shards": 16, "maxpaths": 4000000})
-H("C13", "html/boxes", "VxH_C09_grid", reach=["built"], tiers=["quick"], bounds="table grid slots, see C09 (the deeper bound is explored once, under C09 thorough)", quick={"maxsteps": 50000000, "time": "500s", "shards": 8}, thorough={"maxsteps": 50000000, "time": "5400s", "shards": 16, "maxpaths": 4000000})
+H("C09", "html/boxes", "VxH_C09_grid", reach=["built"], bounds="table of 2 rows x 2 cells (thorough: a third, attribute-free row in between); colspan and (except in the last row) rowspan absent or a symbolic digit 0..3", quick={"maxsteps": 50000000, "time": "500s", "shards": 8}, thorough={"maxsteps": 50000000, "time": "3000s", "shards": 16, "maxpaths": 4000000})
+H("C13", "html/boxes", "VxH_C09_grid", reach=["built"], tiers=["quick"], bounds="table grid slots, see C09 (the deeper bound is explored once, under C09 thorough)", quick={"maxsteps": 50000000, "time": "500s", "shards": 8}, thorough={"maxsteps": 50000000, "time": "3000s", "shards": 16, "maxpaths": 4000000})
 
 # ---- C13 tables ----
 ASSUMPTIONS["C13"] = [
